@@ -945,7 +945,7 @@ def check(rep):
         for x in LEADS:
             for y in CONTS:
                 check_scalar(cx, bytes([x, y]), '2-byte')
-        for _ in range(600):
+        for _ in range(3000):
             check_scalar(cx, bytes([rng.getrandbits(8), rng.getrandbits(8)]), '2-byte')
     for lead in LEADS:
         for c1 in CONTS:
@@ -954,16 +954,16 @@ def check(rep):
                 if thorough and lead >= 0xF0:
                     for c3 in CONTS:
                         check_scalar(cx, bytes([lead, c1, c2, c3]), '4-byte-boundary')
-    for _ in range(1500 if not thorough else 30000):
+    for _ in range(6000 if not thorough else 150000):
         b, bucket = rand_bytes_case(rng)
         check_scalar(cx, b, bucket)
-    for _ in range(300 if not thorough else 3000):
+    for _ in range(1000 if not thorough else 10000):
         check_scalar(cx, rand_scalar(rng), 'any-scalar')
     for v in ('', 'text', 0, 0.0, None, False, [], (), {}, [b'a'], (b'a',), time.gmtime(0), datetime(2020, 1, 1)):
         check_scalar(cx, v, 'non-string')
 
     # -- nested ----------------------------------------------------------------------------------
-    for _ in range(700 if not thorough else 12000):
+    for _ in range(3000 if not thorough else 50000):
         depth = rng.choice([1, 2, 3, 4])
         content = rand_dict(rng, depth, rng.randint(0, 4)) if rng.random() < 0.85 else rand_value(rng, depth)
         if has_clash(content):
@@ -973,7 +973,7 @@ def check(rep):
     check_nested(cx, {'timestamp': time.gmtime(1577840461)}, 'struct_time')
 
     # -- Message op sequences ----------------------------------------------------------------------
-    for _ in range(600 if not thorough else 10000):
+    for _ in range(2500 if not thorough else 40000):
         auto = rng.random() < 0.75
         body = rng.choice([rand_bytes_case(rng)[0], rand_text(rng, 3), None, b''])
         method = rng.choice([None, None, {}, rand_dict(rng, 2, rng.randint(1, 3)), (b'a', 1), b'raw'])
@@ -988,7 +988,7 @@ def check(rep):
             check_ops(cx, True, b'x', None, {'app_id': b'seed'}, [('s', attr, v), ('rp',), ('g', attr), ('td',)], 'set-before-read')
 
     # -- create ------------------------------------------------------------------------------------
-    for _ in range(250 if not thorough else 4000):
+    for _ in range(800 if not thorough else 10000):
         props = rng.choice([None, {}, rand_props_loose(rng, 1)])
         if props and rng.random() < 0.5:
             for k in rng.sample(['correlation_id', 'message_id', 'timestamp'], rng.randint(1, 3)):
@@ -997,7 +997,7 @@ def check(rep):
 
     # -- end to end --------------------------------------------------------------------------------
     fsizes = [4096] + list(range(9, 41))
-    for _ in range(500 if not thorough else 10000):
+    for _ in range(2000 if not thorough else 40000):
         fm = rng.choice(fsizes)
         text = rng.random() < 0.6
         n = rng.choice([0, 1, 2, 5, 17, 40, 100])
